@@ -19,5 +19,20 @@ SPEC = dict(
     assumptions=["every repository has at least one document (property quantifier)", "no tombstones (C17)"],
 )
 
+def _apply_replay(ctx):
+    """--replay <file>: re-run the check with the seed recorded in the replay (the failing case index and
+    inputs are in the file; the harness is deterministic in the seed)."""
+    if ctx.replay:
+        try:
+            import json as _json
+            d = _json.load(open(ctx.replay))
+            seed = (d.get("replay") or {}).get("seed")
+            if seed is not None:
+                ctx.seed = int(seed)
+        except Exception:
+            pass
+
+
 def run(ctx):
+    _apply_replay(ctx)
     return vf.standard_check(ctx, SPEC)
